@@ -1194,10 +1194,18 @@ fn c05_config(ctx: &mut Ctx, set: &str, records: &[Vec<u8>], k: usize, container
     let _ = std::fs::remove_file(&outp);
     let r = crate::ctx::guard(|| {
         let mut oc = OligoComputer::new(inp.clone(), outp.clone(), k);
-        oc.set_threads(threads);
-        oc.set_header(header);
-        oc.set_delim(delim.to_string());
-        oc.set_max_memory(limit);
+        // the order of the setter calls is part of the configuration: both orders are used (by case parity)
+        if (threads + records.len()) % 2 == 0 {
+            oc.set_threads(threads);
+            oc.set_header(header);
+            oc.set_delim(delim.to_string());
+            oc.set_max_memory(limit);
+        } else {
+            oc.set_max_memory(limit);
+            oc.set_delim(delim.to_string());
+            oc.set_header(header);
+            oc.set_threads(threads);
+        }
         if writer == "mmap" {
             oc.verif_vectorise_mmap()
         } else {
